@@ -11,6 +11,7 @@ import (
 	"time"
 
 	"github.com/kelindar/column"
+	"github.com/kelindar/column/commit"
 	"pgregory.net/rapid"
 )
 
@@ -447,6 +448,64 @@ func TestC18Targeted(t *testing.T) {
 		loop(func(c *column.Collection, i int) {
 			c.QueryAt(uint32(i%200), func(r column.Row) error { r.Record("r"); return nil })
 		}))
+	{
+		// a primary whose change stream is a commit.Channel, consumed by a goroutine that replays into a
+		// replica while transactions go on (alternating between two blocks, so that the pooled pages of
+		// the transactions keep changing their first section header)
+		ch := make(commit.Channel, 4096)
+		p := column.NewCollection(column.Options{Capacity: 64, Vacuum: 24 * 3600 * 1e9, Writer: ch})
+		p.CreateColumn("n", column.ForInt())
+		p.CreateColumn("s", column.ForString())
+		rep := column.NewCollection(column.Options{Capacity: 64, Vacuum: 24 * 3600 * 1e9})
+		rep.CreateColumn("n", column.ForInt())
+		rep.CreateColumn("s", column.ForString())
+		p.Query(func(txn *column.Txn) error {
+			for i := 0; i < 16500; i++ {
+				txn.Insert(func(r column.Row) error { r.SetInt("n", i); return nil })
+			}
+			return nil
+		})
+		stop := make(chan struct{})
+		var wg sync.WaitGroup
+		wg.Add(3)
+		go func() {
+			defer wg.Done()
+			for {
+				select {
+				case cm := <-ch:
+					rep.Replay(cm)
+				case <-stop:
+					return
+				}
+			}
+		}()
+		for w := 0; w < 2; w++ {
+			go func(w int) {
+				defer wg.Done()
+				for i := 0; ; i++ {
+					select {
+					case <-stop:
+						return
+					default:
+					}
+					row := uint32(i%2)<<14 + uint32((i*7+w)%100)
+					p.QueryAt(row, func(r column.Row) error { r.SetInt("n", i); r.SetString("s", fmt.Sprint("v", i%13)); return nil })
+				}
+			}(w)
+		}
+		time.Sleep(dur)
+		close(stop)
+		done := make(chan struct{})
+		go func() { wg.Wait(); close(done) }()
+		select {
+		case <-done:
+		case <-time.After(30 * time.Second):
+			t.Fatalf("C18-VIOLATION deadlock: targeted workload %q did not terminate within 30 s", "channel stream consumed by a replaying goroutine")
+		}
+		p.Close()
+		rep.Close()
+		RecordCase("C18", "targeted workload: channel stream consumed by a replaying goroutine", true, "targeted")
+	}
 	run("failing and rolled-back inserts beside each other and beside selections",
 		loop(func(c *column.Collection, i int) {
 			c.Insert(func(r column.Row) error { r.SetInt("n", i); return errStep })
